@@ -268,3 +268,169 @@ Proof.
   - unfold inv. pose proof (len_nonneg r). rewrite len_cons. repeat split; try lia.
   - unfold mu, fp_fuel. rewrite len_cons. unfold len. cbn [length Z.eqb]. lia.
 Qed.
+
+(* ------------------------------------------------------------------ *)
+(* C. the in-place loops                                               *)
+
+Lemma shift_right_spec : forall k a i,
+  0 <= i - Z.of_nat k -> i < len a ->
+  len (shift_right k a i) = len a /\
+  forall j, nthz (shift_right k a i) j =
+    if (i - Z.of_nat k <? j) && (j <=? i) then nthz a (j - 1) else nthz a j.
+Proof.
+  induction k as [|k IH]; intros a i Hk Hi.
+  - cbn [shift_right]. split; [reflexivity|]. intros j. bdestr; try reflexivity. lia.
+  - cbn [shift_right]. destruct (IH (upd a i (nthz a (i - 1))) (i - 1)) as [L N]; [lia|rewrite len_upd; lia|].
+    rewrite len_upd in L. split; [assumption|]. intros j. rewrite N.
+    rewrite !nthz_upd by lia. bdestr; try reflexivity; try lia.
+    all: try (subst; f_equal; lia).
+Qed.
+
+Lemma move_left_spec : forall k a dst src,
+  0 <= dst -> dst <= src -> src + Z.of_nat k <= len a ->
+  len (move_left k a dst src) = len a /\
+  forall j, nthz (move_left k a dst src) j =
+    if (dst <=? j) && (j <? dst + Z.of_nat k) then nthz a (j - dst + src) else nthz a j.
+Proof.
+  induction k as [|k IH]; intros a dst src Hd Hs Hl.
+  - cbn [move_left]. split; [reflexivity|]. intros j. bdestr; try reflexivity. lia.
+  - cbn [move_left]. destruct (IH (upd a dst (nthz a src)) (dst + 1) (src + 1)) as [L N]; [lia|lia|rewrite len_upd; lia|].
+    rewrite len_upd in L. split; [assumption|]. intros j. rewrite N.
+    rewrite !nthz_upd by lia. bdestr; try reflexivity; try lia.
+    all: try (subst; f_equal; lia).
+Qed.
+
+(* ------------------------------------------------------------------ *)
+(* D. Set / Add / Remove / Find as splices                             *)
+
+Ltac fin :=
+  try lia; try reflexivity;
+  try (rewrite nthz_app_l by lia); try (f_equal; lia);
+  try (subst; rewrite ?Z.sub_diag; reflexivity).
+
+Lemma set_go_splice l o a c : 0 <= a -> a <= c -> c <= len l ->
+  set_go l o a (a + 1) c = splice l a c [o].
+Proof.
+  intros Ha Hac Hc. unfold set_go. set (n := len l) in *. set (A := l ++ [zero_opt]).
+  assert (HA : len A = n + 1) by (unfold A; rewrite len_app, len_cons, len_nil; fold n; lia).
+  destruct (Z.ltb_spec c (a + 1)).
+  - assert (c = a) by lia. subst c.
+    destruct (shift_right_spec (Z.to_nat (n - a)) A n) as [L N]; [lia|lia|].
+    apply list_ext.
+    + rewrite len_take by (rewrite len_upd, L; lia). rewrite len_splice by (fold n; lia).
+      rewrite len_cons, len_nil. fold n. lia.
+    + intros j Hj. rewrite len_take in Hj by (rewrite len_upd, L; lia).
+      rewrite nthz_take by (rewrite ?len_upd, ?L; lia). rewrite nthz_upd by (rewrite L; lia).
+      rewrite N. rewrite nthz_splice by (fold n; lia). rewrite len_cons, len_nil. unfold A.
+      bdestr; fin.
+  - destruct (move_left_spec (Z.to_nat (n - c)) A (a + 1) c) as [L N]; [lia|lia|lia|].
+    apply list_ext.
+    + rewrite len_take by (rewrite len_upd, L; lia). rewrite len_splice by (fold n; lia).
+      rewrite len_cons, len_nil. fold n. lia.
+    + intros j Hj. rewrite len_take in Hj by (rewrite len_upd, L; lia).
+      rewrite nthz_take by (rewrite ?len_upd, ?L; lia). rewrite nthz_upd by (rewrite L; lia).
+      rewrite N. rewrite nthz_splice by (fold n; lia). rewrite len_cons, len_nil. unfold A.
+      bdestr; fin.
+Qed.
+
+Lemma set_splice l o mn mx : l <> [] -> is_split l (oid o) mn mx ->
+  find_position l (oid o) = (mn, if mx =? len l then -1 else mx) ->
+  set l o = splice l (mn + 1) mx [o].
+Proof.
+  intros Hne (S1 & S2 & S3 & _) Hfp. unfold set. rewrite Hfp.
+  assert (Hn : 0 < len l) by (destruct l; [congruence|rewrite len_cons; pose proof (len_nonneg l); lia]).
+  destruct (Z.eqb_spec mx (len l)) as [E|E].
+  - (* nothing larger *)
+    destruct (Z.eqb_spec mn (-1)) as [E1|E1]; cbn [andb Z.eqb].
+    + subst. unfold splice. rewrite drop_all by lia. reflexivity.
+    + destruct (Z.eqb_spec mn (-1)); [lia|]. destruct (Z.leb_spec 0 mn); [|lia].
+      cbn [Z.ltb Z.compare]. destruct (Z.eqb_spec (mn + 2) (len l)) as [E2|E2].
+      * apply list_ext.
+        -- rewrite len_upd, len_splice, len_cons, len_nil by lia. lia.
+        -- intros j Hj. rewrite len_upd in Hj. rewrite nthz_upd, nthz_splice, len_cons, len_nil by lia.
+           bdestr; fin.
+      * replace (mn + 2) with (mn + 1 + 1) by lia. rewrite E. apply set_go_splice; lia.
+  - destruct (Z.eqb_spec mn (-1)) as [E1|E1]; cbn [andb].
+    + destruct (Z.eqb_spec mx (-1)); [lia|]. destruct (Z.leb_spec 0 mx); [|lia].
+      subst mn. change (-1 + 1) with 0. change 1 with (0 + 1). apply set_go_splice; lia.
+    + destruct (Z.eqb_spec mn mx); [lia|]. destruct (Z.leb_spec 0 mn); [|lia].
+      destruct (Z.ltb_spec mx 0); [lia|].
+      destruct (Z.eqb_spec (mn + 2) mx) as [E2|E2].
+      * apply list_ext.
+        -- rewrite len_upd, len_splice, len_cons, len_nil by lia. lia.
+        -- intros j Hj. rewrite len_upd in Hj. rewrite nthz_upd, nthz_splice, len_cons, len_nil by lia.
+           bdestr; fin.
+      * replace (mn + 2) with (mn + 1 + 1) by lia. apply set_go_splice; lia.
+Qed.
+
+Lemma add_splice l o mn mx : l <> [] -> is_split l (oid o) mn mx ->
+  find_position l (oid o) = (mn, if mx =? len l then -1 else mx) ->
+  add l o = splice l mx mx [o].
+Proof.
+  intros Hne (S1 & S2 & S3 & _) Hfp. unfold add. rewrite Hfp.
+  set (n := len l) in *. set (A := l ++ [zero_opt]).
+  assert (HA : len A = n + 1) by (unfold A; rewrite len_app, len_cons, len_nil; fold n; lia).
+  assert (Hp : (if (if mx =? n then -1 else mx) =? -1 then n else (if mx =? n then -1 else mx)) = mx)
+    by (destruct (Z.eqb_spec mx n); [cbn; lia|destruct (Z.eqb_spec mx (-1)); lia]).
+  rewrite Hp.
+  destruct (shift_right_spec (Z.to_nat (n - mx)) A n) as [L N]; [lia|lia|].
+  apply list_ext.
+  - rewrite len_upd, L, len_splice, len_cons, len_nil by (fold n; lia). fold n. lia.
+  - intros j Hj. rewrite len_upd, L in Hj. rewrite nthz_upd by (rewrite L; lia).
+    rewrite N, nthz_splice, len_cons, len_nil by (fold n; lia). unfold A. bdestr; fin.
+Qed.
+
+Lemma find_split l id mn mx : l <> [] -> is_split l id mn mx ->
+  find_position l id = (mn, if mx =? len l then -1 else mx) ->
+  find l id = if mn + 1 <? mx then Some (mn + 1, mx) else None.
+Proof.
+  intros Hne (S1 & S2 & S3 & _) Hfp. unfold find. rewrite Hfp.
+  assert (Hn : 0 < len l) by (destruct l; [congruence|rewrite len_cons; pose proof (len_nonneg l); lia]).
+  destruct (Z.eqb_spec mx (len l)); bdestr; try reflexivity; try lia; try (repeat f_equal; lia).
+Qed.
+
+Lemma remove_splice l id mn mx : l <> [] -> is_split l id mn mx ->
+  find_position l id = (mn, if mx =? len l then -1 else mx) ->
+  remove l id = splice l (mn + 1) mx [].
+Proof.
+  intros Hne Hs Hfp. unfold remove. rewrite (find_split l id mn mx Hne Hs Hfp).
+  destruct Hs as (S1 & S2 & S3 & _).
+  destruct (Z.ltb_spec (mn + 1) mx) as [Hlt|Hge].
+  - set (n := len l) in *.
+    destruct (move_left_spec (Z.to_nat (n - mx)) l (mn + 1) mx) as [L N]; [lia|lia|fold n; lia|].
+    apply list_ext.
+    + rewrite len_take by (rewrite L; fold n; lia). rewrite len_splice, len_nil by (fold n; lia). fold n. lia.
+    + intros j Hj. rewrite len_take in Hj by (rewrite L; fold n; lia).
+      rewrite nthz_take by (rewrite ?L; fold n; lia). rewrite N, nthz_splice, len_nil by (fold n; lia).
+      bdestr; fin.
+  - assert (mx = mn + 1) by lia. subst mx. unfold splice. cbn [app]. symmetry. apply take_drop.
+Qed.
+
+(* positions of the three blocks: [0,a) smaller, [a,c) equal, [c,len) larger *)
+Definition split3 (l : list opt) (id a c : Z) : Prop :=
+  0 <= a /\ a <= c /\ c <= len l /\
+  (forall k, 0 <= k < a -> oid (nthz l k) < id) /\
+  (forall k, a <= k < c -> oid (nthz l k) = id) /\
+  (forall k, c <= k < len l -> id < oid (nthz l k)).
+
+Theorem ops_splice l id : sorted l -> exists a c, split3 l id a c /\
+  (forall v, set l (id, v) = splice l a c [(id, v)]) /\
+  (forall v, add l (id, v) = splice l c c [(id, v)]) /\
+  remove l id = splice l a c [] /\
+  find l id = (if a <? c then Some (a, c) else None).
+Proof.
+  intros Hs. destruct l as [|x r].
+  - exists 0, 0. unfold split3. change (len (@nil opt)) with 0.
+    repeat split; try lia; try reflexivity; intros; lia.
+  - destruct (find_position_spec (x :: r) id Hs) as (mx & Hsp & Hmx); [congruence|].
+    destruct (find_position (x :: r) id) as [mn mxr] eqn:Hfp. cbn [fst snd] in *. subst mxr.
+    exists (mn + 1), mx. assert (Hne : x :: r <> []) by congruence.
+    split; [|split; [|split; [|split]]].
+    + destruct Hsp as (S1 & S2 & S3 & S4 & S5 & S6). unfold split3.
+      refine (conj _ (conj _ (conj _ (conj _ (conj _ S6))))); try lia;
+        intros k Hk; first [apply S4; lia | apply S5; lia].
+    + intros v. apply (set_splice (x :: r) (id, v) mn mx Hne Hsp Hfp).
+    + intros v. apply (add_splice (x :: r) (id, v) mn mx Hne Hsp Hfp).
+    + apply (remove_splice (x :: r) id mn mx Hne Hsp Hfp).
+    + apply (find_split (x :: r) id mn mx Hne Hsp Hfp).
+Qed.
